@@ -143,6 +143,28 @@ theorem dedupName_fresh (used : List String) (nm : String) (h : nm ∉ used) : d
   unfold dedupName
   simp [h]
 
+theorem dedupGo_fresh_or_exhausted (used : List String) (nm : String) :
+    ∀ (fuel i : Nat), dedupName.go used nm fuel i ∉ used ∨ dedupName.go used nm fuel i = nm := by
+  intro fuel
+  induction fuel with
+  | zero => intro i; right; simp [dedupName.go]
+  | succ n ih =>
+    intro i
+    unfold dedupName.go
+    split
+    · rename_i h; left; simpa using h
+    · exact ih (i + 1)
+
+/-- **A name written by a save never repeats a name written earlier in the same save**, unless all
+    of the 1000 suffixes the code tries are taken (then the plain name is written again: the only
+    case in which two scopes of a database can share a name). -/
+theorem dedupName_fresh_or_exhausted (used : List String) (nm : String) :
+    dedupName used nm ∉ used ∨ dedupName used nm = nm := by
+  unfold dedupName
+  split
+  · rename_i h; left; simpa using h
+  · exact dedupGo_fresh_or_exhausted used nm 1000 1
+
 theorem foldl_saved_named (myInsts : List Inst) : ∀ (used : List String) (saved : List UCg),
     ∀ i ∈ myInsts, ∃ suf, saveCg (i.name ++ suf) i.shape i.st ∈ (myInsts.foldl (fun (acc : List String × List UCg) i =>
         (acc.1 ++ [dedupName acc.1 i.name], acc.2 ++ [saveCg (dedupName acc.1 i.name) i.shape i.st])) (used, saved)).2 := by
